@@ -266,6 +266,19 @@ def leg_chains(run, thorough):
     }
     for k, text in props.items():
         leg.add({"defs": text, "probe": "x"}, {"family": "substance-property", "variant": k, "text": text}, nontrivial="prop:" + k)
+    # degenerate numeric definitions in the loader's own little evaluators (prefixes, quantities) and in unit definitions
+    nums = {
+        "prefix-div-zero": "a- 1|0\nx 3\n", "prefix-div-zero-slash": "a- 1/0\nx 3\n", "prefix-zero-neg-power": "a- 0^-1\nx 3\n",
+        "prefix-power-min-i32": "a- 10^-2147483648\nx 3\n", "prefix-power-too-big": "a- 10^99999999999\nx 3\n",
+        "prefix-of-prefix-zero": "a- 0\nb- 1|a\nx 3\n", "prefix-negated": "a- -(1|0)\nx 3\n",
+        "quantity-power-overflow": "m !\nq ? (m^3037000500)^3037000500\nx 3 m\n",
+        "quantity-power-overflow-neg": "m !\nq ? (m^-3037000500)^3037000500\nx 3 m\n",
+        "quantity-power-huge": "m !\nq ? m^99999999999999999999\nx 3 m\n", "quantity-div-self": "m !\nq ? m / m\nr ? 1 / q\nx 3 m\n",
+        "unit-div-zero": "m !\ny 1|0 m\nx 3 m\n", "unit-zero-neg-power": "m !\ny 0^-1 m\nx 3 m\n", "unit-mod-zero": "m !\ny 5 mod 0\nx 3 m\n",
+        "unit-power-zero": "m !\ny m^0\nx 3 m\n", "unit-shift-negative": "y 1 << -3\nx 3\n", "unit-nan": "y ln(-1)\nz 2^y\nx 3\n",
+    }
+    for k, text in nums.items():
+        leg.add({"defs": text, "probe": "x"}, {"family": "numeric-definition", "variant": k, "text": text}, nontrivial="num:" + k)
     # aliases that lead back to themselves in the finished database (a name redefined as an alias of its own alias,
     # within one file or by a later load): the queries about them must be answered
     cur = lambda name, expr: json.dumps([{"name": name, "type": "unit", "expr": expr, "doc": None, "category": None}])
